@@ -30,12 +30,10 @@ class Adapter(EnvAdapter):
 
         ts = T_SWEEP_QUICK_FEW if tier == "quick" else T_SWEEP_THOROUGH_FEW
         base = self._base_configs(tier)
-        tmpl = [c for c in base if c["id"] == "g6a2f1_t7_pen"][0]
-        sweep = []
-        for t in ts:
-            d = dict(tmpl, id=f"g6a2f1_t{t}_sweep", ctor=dict(tmpl["ctor"], time_limit=t), episodes=1, max_steps=t + 2,
-                     policies=["idle"], probe_every=0, props=["C03", "C11"])
-            sweep.append(d)
+        ctor = dict(grid_size=6, num_agents=2, num_food=1, fov=6, max_agent_level=2, force_coop=True, grid_observation=False,
+                    normalize_reward=True, penalty=0.5)
+        sweep = [dict(id=f"g6a2f1_t{t}_sweep", ctor=dict(ctor, time_limit=t), episodes=1, max_steps=t + 2,
+                      policies=["idle"], probe_every=0, props=["C03", "C11"]) for t in ts]
         return base + sweep
 
     def _base_configs(self, tier):
@@ -78,6 +76,7 @@ class Adapter(EnvAdapter):
                 c("g8a2f2_grid_t7", 8, 2, 2, 8, 7, 2, 10, grid=True, pen=0.5, probe_cap=10),
                 # the penalty given as a Python int: rewards must stay float32
                 c("g5a2f1_t3_penint", 5, 2, 1, 2, 3, 3, 6, coop=False, pen=1, norm=False, probe_cap=12),
+                c("g6a1f2_t7", 6, 1, 2, 6, 7, 4, 11, coop=False, probe_cap=6),     # a single agent
                 inj("inj3_vec", 40, grid=False),
                 inj("inj3_grid", 20, grid=True, pen=0.5),
             ]
@@ -105,6 +104,11 @@ class Adapter(EnvAdapter):
             out.append(c(f"g6a2f1_grid_t{t}", 6, 2, 1, 2, t, ne, ms, grid=True, probe_every=pe))
             out.append(c(f"g8a2f2_grid_t{t}", 8, 2, 2, 8, t, 3, ms, grid=True, probe_every=pe + 2, probe_cap=18))
             out.append(c(f"g8a2f2_fov1_t{t}", 8, 2, 2, 1, t, ne, ms, coop=False, probe_every=pe))
+        # a single agent (cannot cooperate: force_coop off), more food than agents, higher levels; explicit limit 100 reached
+        out.append(c("g6a1f2_t7", 6, 1, 2, 6, 7, 10, 11, coop=False))
+        out.append(c("g5a1f1_grid_t3", 5, 1, 1, 2, 3, 8, 7, coop=False, grid=True, pen=0.5))
+        out.append(c("g8a2f4_lvl4_t7", 8, 2, 4, 3, 7, 8, 11, coop=False, lvl=4, probe_every=2, probe_cap=36))
+        out.append(c("g6a2f1_t100_full", 6, 2, 1, 6, 100, 3, 104, coop=True, probe_every=10, probe_cap=20, policies=["random", "idle"]))
         out.append(inj("inj3_vec", 900, grid=False))
         out.append(inj("inj3_grid", 600, grid=True, pen=0.5))
         return out
